@@ -196,8 +196,13 @@ def run_remote(root):
 
 
 # ------------------------------------------------------------------------------------------------ phase 2: exception classes, selective catching, result shapes
-EXC = {"ValueError": ValueError, "KeyError": KeyError, "NodeError": NodeError}      # NodeError: a user-defined subclass of ValueError
-CATCH = {"all": Exception, "ValueError": ValueError, "KeyError": KeyError}
+class Abort(BaseException):
+    """a user-defined exception outside the Exception hierarchy"""
+
+
+EXC = {"ValueError": ValueError, "KeyError": KeyError, "NodeError": NodeError,      # NodeError: a user-defined subclass of ValueError
+       "GeneratorExit": GeneratorExit, "Abort": Abort}                                # outside the Exception hierarchy
+CATCH = {"all": Exception, "ValueError": ValueError, "KeyError": KeyError, "base": BaseException}
 CUSTOM_OK = {"import_custom_exceptions": True, "instantiate_custom_exceptions": True, "instantiate_oldstyle_exceptions": True}
 
 
@@ -208,13 +213,13 @@ def gen_tree2(r, depth, counter, side=None):
     kids = []
     if depth > 0:
         for _ in range(r.choice([0, 1, 1, 2, 2, 3])):
-            kids.append([gen_tree2(r, depth - r.choice([1, 1, 2]), counter), r.choice([None, None, "all", "ValueError", "ValueError", "KeyError"])])
-    return {"side": side, "id": nid, "kids": kids, "raises": r.choice([None, None, None, "ValueError", "KeyError", "NodeError", "NodeError"]),
+            kids.append([gen_tree2(r, depth - r.choice([1, 1, 2]), counter), r.choice([None, None, "all", "ValueError", "ValueError", "KeyError", "base"])])
+    return {"side": side, "id": nid, "kids": kids, "raises": r.choice([None, None, None, None, "ValueError", "KeyError", "NodeError", "NodeError", "GeneratorExit", "Abort"]),
             "shape": r.choice(["int", "mixed", "mixed", "callable", "list"])}
 
 
 def has_custom(t):
-    return t["raises"] == "NodeError" or any(has_custom(k) for k, _ in t["kids"])
+    return t["raises"] in ("NodeError", "Abort") or any(has_custom(k) for k, _ in t["kids"])
 
 
 def run_tree2(root, remote, cfg_extra):
@@ -257,8 +262,8 @@ def run_tree2(root, remote, cfg_extra):
             try:
                 v = run(k, side) if (k["side"] == side or not remote) else ends[side].root.run(k["id"])
                 acc += use(k, v, t["id"])
-            except Exception as e:
-                if catch is None or not isinstance(e, CATCH[catch]):
+            except BaseException as e:
+                if isinstance(e, (C.Hang, KeyboardInterrupt, SystemExit, MemoryError)) or catch is None or not isinstance(e, CATCH[catch]):
                     raise
                 log.append(("caught", t["id"], k["id"]))
         if t["raises"]:
@@ -282,8 +287,12 @@ def run_tree2(root, remote, cfg_extra):
             ends["A"], ends["B"] = ca, cb
         try:
             out = final(run(root, "A"), root)
-        except Exception as e:
-            out = ("exc", isinstance(e, ValueError), isinstance(e, KeyError), tuple(e.args))
+        except C.Hang:
+            raise
+        except BaseException as e:
+            if isinstance(e, (KeyboardInterrupt, SystemExit, MemoryError)):
+                raise
+            out = ("exc", isinstance(e, ValueError), isinstance(e, KeyError), isinstance(e, Exception), isinstance(e, GeneratorExit), tuple(e.args))
         return out, log, {k: list(v) for k, v in kept.items()}
     finally:
         if ca is not None:
